@@ -10,6 +10,7 @@ from __future__ import annotations
 import importlib.machinery
 import importlib.util
 import time
+import zlib
 
 import numpy as np
 
@@ -222,7 +223,7 @@ def search(eng, low, fname, contract, seed, budget_s=20.0, max_trials=400, accep
     if gen is None:
         stats["note"] = "no generator in the contract"
         return None, stats
-    rng = np.random.default_rng([seed, abs(hash(fname)) % (2 ** 31)])
+    rng = np.random.default_rng([seed, zlib.crc32(fname.encode())])
     t0 = time.time()
     last_err = None
     while stats["trials"] < max_trials and time.time() - t0 < budget_s:
